@@ -93,7 +93,9 @@ StepVerdict(e, pre, post) ==
                    ELSE <<"nop-on-condfail">>
       \* accepted generic coprocessor instructions must reach the (not implemented) coprocessor hooks
       nimpl == IF host THEN <<>>
-               ELSE IF r.out = "notimpl:coproc" /\ out # "notimpl" THEN <<"outcome">>
+               ELSE IF r.out \in {"notimpl:coproc", "notimpl:cp15_instr_decode", "notimpl:cp14_debug_instr_decode",
+                                  "notimpl:cp14_trace_instr_decode", "notimpl:cp14_jazelle_instr_decode"} /\ out # "notimpl"
+                    THEN <<"outcome">>
                ELSE IF r.out = "notimpl:coproc-mem" /\ out \notin {"notimpl", "dabort"} THEN <<"outcome">>
                ELSE IF r.out = "unimpl" /\ out \notin {"notimpl", "undef"} THEN <<"outcome">>
                ELSE <<>>
